@@ -144,6 +144,35 @@ def final_table(chk, facts):
     chk.ob(rule, "only-source", dom and bool(oks), "every Ok return is dominated by the Response::decision() call: %s" % dom, where=f.where(), fn=f.name)
 
 
+def request_roles(chk, facts):
+    """The concrete request is re-expressed as a partial request role by role."""
+    rule = "C15.FIELDS.request"
+    f = get_fn(chk, facts, rule, "cedar_policy_core::batched_evaluator::concrete_request_to_partial")
+    if f is None:
+        return
+
+    def seed(p):
+        if p[0] == 1:
+            for e in p[1:]:
+                if isinstance(e, list) and e[0] == "f":
+                    return ["request." + (e[2] or str(e[1]))]
+        return []
+    L = shape.Labels(f, None, seed)
+    new = protocol.calls_matching(f, "tpe::request::PartialRequest::new")
+    if len(new) != 1:
+        chk.lost(rule, "the PartialRequest::new call of concrete_request_to_partial", "found %d" % len(new))
+        return
+    b, t = new[0]
+    want = ["request.principal", "request.action", "request.resource", "request.context"]
+    for i, w in enumerate(want):
+        labs = {x for x in L.operand_labels(t[2][i]) if x.startswith("request.")}
+        chk.ob(rule, w.split(".")[1], labs == {w}, "PartialRequest::new argument %d is made of %s (must be exactly %s)" % (i, sorted(labs), w),
+               where=f.where(t[1].get("l")), fn=f.name, sample={"arg": i, "from": sorted(labs)})
+    # Known euid -> Ok path only; Unknown -> error
+    errs = [b2 for b2, blk in enumerate(f.blocks) if not blk["cl"] for s_ in blk["st"] if s_[0] == "a" and s_[2][0] == "agg" and s_[2][1][0] == "adt" and str(s_[2][1][1]).endswith("PartialRequestError")]
+    chk.ob(rule, "unknown->error", len(errs) >= 4, "an unknown principal / action / resource or a residual context is refused (%d PartialRequestError sites; 4 reviewed)" % len(errs), where=f.where(), fn=f.name)
+
+
 def run(chk, facts, tier):
     facts.load_crate("cedar_policy_core.lib")
     chk.explanation = (
@@ -156,6 +185,7 @@ def run(chk, facts, tier):
     uids_traverse(chk, facts)
     loop(chk, facts)
     final_table(chk, facts)
+    request_roles(chk, facts)
     # the re-interpretation step is the TPE evaluator: its concrete operator dispatch and the reflexivity of `in`
     # (which only shows once the left entity has been loaded) are shared with C14
     from rules import c02_ops
